@@ -25,6 +25,7 @@ def gen_program(g, length):
     units = fams[fam]
     arrays, vectors, groups, datasets = [], [], [], []
     meta = {}  # var -> (dtype, shape)
+    ro = set()  # read-only handles: never the target of an in-place operator
     tgt_comps = {}  # vector var -> its component Array vars
 
     def new_array(shape=None, dt=None):
@@ -96,7 +97,7 @@ def gen_program(g, length):
     for _ in range(length):
         k = r.random()
         if k < 0.28:
-            tgt = r.choice(arrays)
+            tgt = r.choice([a for a in arrays if a not in ro])
             opn, rhs = rhs_for(tgt)
             d = tgt if r.random() < 0.8 else fresh()
             prog.append({"op": "bin", "dst": d, "name": opn, "a": tgt, "rhs": rhs, "inplace": True})
@@ -148,7 +149,12 @@ def gen_program(g, length):
             src = r.choice([a for a in arrays if meta.get(a, (0, []))[1] == [n]] or arrays)
             d = fresh()
             ix = g.index(n, kinds=("slice", "slice", "mask", "fancy", "int"))
-            prog.append({"op": "get", "dst": d, "a": src, "ix": ix})
+            get = {"op": "get", "dst": d, "a": src, "ix": ix}
+            if src in ro or r.random() < 0.35:
+                # read-only handle over the same data; its copies must still be independent, writable arrays
+                get["ro"] = True
+                ro.add(d)
+            prog.append(get)
             prog.append({"op": "shares", "a": d, "b": src})
             arrays.append(d)
             meta[d] = (meta.get(src, ("f8", [n]))[0], None)
